@@ -326,14 +326,17 @@ class List(list, base.Symbolic, pg_typing.CustomTyping):
       if deep or isinstance(v, base.Symbolic):
         v = base.clone(v, deep, memo)
       source.append(v)
+    # NOTE: the sealed flag is copied per node (the cloned children carry their
+    # own), instead of sealing the whole copy when this node is sealed.
     return List(
         source,
         value_spec=self._value_spec,
         allow_partial=self._allow_partial,
         accessor_writable=self._accessor_writable,
+        onchange_callback=self._onchange_callback,
         # NOTE(daiyip): parent and root_path are reset to empty
         # for copy object.
-        root_path=None)
+        root_path=None).sym_seal(self._sealed)
 
   def _sym_missing(self) -> Dict[Any, Any]:
     """Returns missing fields."""
